@@ -98,3 +98,15 @@ MUTANTS += [
     ("c04_footprint_reads_source", "C04", "solver.py", "        tfftq0 = np.ones((nly, nlx), dtype=np.complex128) / nxe / nye\n", "        tfftq0 = np.ones((nly, nlx), dtype=np.complex128) / nxe / nye * (1.0 + 0.0 * q0.flat[0])\n"),
     ("c04_clip_negative_source", "C04", "solver.py", "        fftq0 = fft2(q0, norm=\"forward\")  # fft of source\n", "        fftq0 = fft2(np.where(q0 < -500.0, -500.0, q0), norm=\"forward\")  # fft of source\n"),
 ]
+
+MUTANTS += [
+    # ---- C06
+    ("c06_recentre_lx_ly_swapped", "C06", "solver.py", "shift = np.exp(1j * (Lx * (xm - xmx / 2) + Ly * (ym - ymx / 2)))", "shift = np.exp(1j * (Ly * (xm - xmx / 2) + Lx * (ym - ymx / 2)))"),
+    ("c06_recentre_sign", "C06", "solver.py", "shift = np.exp(1j * (Lx * (xm - xmx / 2) + Ly * (ym - ymx / 2)))", "shift = np.exp(1j * (Lx * (xm + xmx / 2) + Ly * (ym - ymx / 2)))"),
+    ("c06_recentre_ymx", "C06", "solver.py", "shift = np.exp(1j * (Lx * (xm - xmx / 2) + Ly * (ym - ymx / 2)))", "shift = np.exp(1j * (Lx * (xm - ymx / 2) + Ly * (ym - ymx / 2)))"),
+    ("c06_lx_with_dy", "C06", "solver.py", "    lx = 2.0 * np.pi / dx / nxe * ilx\n", "    lx = 2.0 * np.pi / dy / nxe * ilx\n"),
+    ("c06_recentre_direction", "C06", "solver.py", "shift = np.exp(1j * (Lx * (xm - xmx / 2) + Ly * (ym - ymx / 2)))", "shift = np.exp(-1j * (Lx * (xm - xmx / 2) + Ly * (ym - ymx / 2)))"),
+    ("c06_source_pos_dependent", "C06", "solver.py", "        fftq0 = fft2(q0, norm=\"forward\")  # fft of source\n", "        fftq0 = fft2(q0 * (1.0 + 1e-3 * np.arange(nxe)[None, :] / nxe), norm=\"forward\")  # fft of source\n"),
+    ("c06_footprint_not_reflected", "C06", "solver.py", '        p = fft2(fftp, norm="backward").real  # concentration\n        q = fft2(fftq, norm="backward").real  # kinematic flux\n', '        p = ifft2(fftp, norm="forward").real  # concentration\n        q = ifft2(fftq, norm="forward").real  # kinematic flux\n'),
+    ("c06_recentre_only_x", "C06", "solver.py", "    elif xm**2 + ym**2 > 0.0:\n", "    elif xm > 0.0:\n"),
+]
